@@ -5,6 +5,6 @@ pid=$(python3 -c "import json;print(json.load(open('$d/meta.json'))['property'])
 checks=${@:-$pid}
 cd /verif
 git -C /repo apply $d/patch.diff || { echo "patch does not apply"; exit 3; }
-for c in $checks; do r=$(./check $c --tier quick 2>&1 | grep -E "VIOLATION|KNOWN" | head -2 | cut -c1-160); echo "$c: ${r:-no violation reported}"; done
+for c in $checks; do r=$(./check $c --tier quick 2>&1 | grep -E "VIOLATION" | head -2 | cut -c1-160); echo "$c: ${r:-no violation reported}"; done
 git -C /repo checkout -- .
 for c in $checks; do ./check $c --tier quick >/dev/null 2>&1; done
